@@ -152,6 +152,65 @@ theorem tostack_init_array_eq (cast : DType → K → K) (l : List K) :
   have e3 : ((l.length : Int) = 3) ↔ l.length = 3 := by omega
   by_cases h : l.length = 3 <;> simp [tostack_init_array, tostack_init_array.body, Py.seq, Py.skip, Py.finish, Py.len, h, e3]
 
+/-! ## `NDArrayImageStack.__getitem__`, the other key forms -/
+
+theorem ndarray_getitem_int_eq (imgs : NdArr K) (k : Int) : ndarray_getitem_int imgs k = ndIndexPrefix imgs [k] := by
+  simp only [ndarray_getitem_int, ndarray_getitem_int.body, Py.bind]; cases ndIndexPrefix imgs [k] <;> rfl
+theorem ndarray_getitem_int2_eq (imgs : NdArr K) (k : Int × Int) : ndarray_getitem_int2 imgs k = ndIndexPrefix imgs [k.1, k.2] := by
+  simp only [ndarray_getitem_int2, ndarray_getitem_int2.body, Py.bind]; cases ndIndexPrefix imgs [k.1, k.2] <;> rfl
+theorem ndarray_getitem_int3_eq (imgs : NdArr K) (k : Int × Int × Int) :
+    ndarray_getitem_int3 imgs k = ndIndexPrefix imgs [k.1, k.2.1, k.2.2] := by
+  simp only [ndarray_getitem_int3, ndarray_getitem_int3.body, Py.bind]; cases ndIndexPrefix imgs [k.1, k.2.1, k.2.2] <;> rfl
+theorem ndarray_getitem_slice_eq (imgs : NdArr K) (k : Slice) : ndarray_getitem_slice imgs k = ndSlice imgs [k] := by
+  simp only [ndarray_getitem_slice, ndarray_getitem_slice.body, Py.bind]; cases ndSlice imgs [k] <;> rfl
+theorem ndarray_getitem_slice2_eq (imgs : NdArr K) (k : Slice × Slice) : ndarray_getitem_slice2 imgs k = ndSlice imgs [k.1, k.2] := by
+  simp only [ndarray_getitem_slice2, ndarray_getitem_slice2.body, Py.bind]; cases ndSlice imgs [k.1, k.2] <;> rfl
+theorem ndarray_getitem_slice3_eq (imgs : NdArr K) (k : Slice × Slice × Slice) :
+    ndarray_getitem_slice3 imgs k = ndSlice imgs [k.1, k.2.1, k.2.2] := by
+  simp only [ndarray_getitem_slice3, ndarray_getitem_slice3.body, Py.bind]; cases ndSlice imgs [k.1, k.2.1, k.2.2] <;> rfl
+theorem ndarray_getitem_slice4_eq (imgs : NdArr K) (k : Slice × Slice × Slice × Slice) :
+    ndarray_getitem_slice4 imgs k = ndSlice imgs [k.1, k.2.1, k.2.2.1, k.2.2.2] := by
+  simp only [ndarray_getitem_slice4, ndarray_getitem_slice4.body, Py.bind]; cases ndSlice imgs [k.1, k.2.1, k.2.2.1, k.2.2.2] <;> rfl
+
+/-- **`stack[x]` on an `(X, Y, Z, C)` stack**: for `0 ≤ x < X` the `(Y, Z, C)` array `g[y, z, c] = imgs[x, y, z, c]`; IndexError exactly when
+`x` is outside `-X ≤ x < X` -/
+theorem getitem_int_spec (imgs : NdArr K) (X Y Z C : Nat) (hs : imgs.shape = [X, Y, Z, C]) (x : Nat) (hx : x < X) :
+    ∃ g, ndarray_getitem_int imgs (x : Int) = some g ∧ g.shape = [Y, Z, C] ∧ ∀ y z c, g.get [y, z, c] = imgs.get [x, y, z, c] := by
+  have hn : ndNormIdx X (x : Int) = some x := by
+    have : (0 : Int) ≤ x ∧ (x : Int) < X := by omega
+    simp [ndNormIdx, this]
+  refine ⟨{ imgs with shape := [Y, Z, C], get := fun i => imgs.get ([x] ++ i) }, ?_, rfl, fun y z c => rfl⟩
+  rw [ndarray_getitem_int_eq]
+  simp [ndIndexPrefix, hs, hn]
+
+theorem getitem_int_out_of_range (imgs : NdArr K) (X Y Z C : Nat) (hs : imgs.shape = [X, Y, Z, C]) (x : Int) (hx : x < -(X : Int) ∨ (X : Int) ≤ x) :
+    ndarray_getitem_int imgs x = none := by
+  have hn : ndNormIdx X x = none := by
+    have h1 : ¬ (0 ≤ x ∧ x < X) := by omega
+    have h2 : ¬ (-(X : Int) ≤ x ∧ x < 0) := by omega
+    simp [ndNormIdx, h1, h2]
+  rw [ndarray_getitem_int_eq]
+  simp [ndIndexPrefix, hs, hn]
+
+/-- **the key `[:, :, :, :]`** (what `ImageStack.get_full` passes) through the slice overload: shape and every element of a 4-d stack unchanged -/
+theorem getitem_full_slices (imgs : NdArr K) (X Y Z C : Nat) (hs : imgs.shape = [X, Y, Z, C]) :
+    ∃ g, ndarray_getitem_slice4 imgs ((none, none, none), (none, none, none), (none, none, none), (none, none, none)) = some g ∧
+      g.shape = [X, Y, Z, C] ∧ ∀ x y z c, g.get [x, y, z, c] = imgs.get [x, y, z, c] := by
+  have key : ∀ n : Nat, sliceSpan n (none, none, none) = some (0, 1, n) := by
+    intro n
+    have h0 : ¬ ((n : Int) < 0) := by omega
+    simp only [sliceSpan, sliceIndices, Option.getD_none, sliceClamp, rangeLen]
+    by_cases hn : n = 0
+    · subst hn; simp
+    · have : (0 : Int) < n := by omega
+      simp [h0, this]
+      omega
+  rw [ndarray_getitem_slice4_eq]
+  refine ⟨{ imgs with shape := [X, Y, Z, C], get := fun i => imgs.get (List.zipWith (fun (p : Int × Int × Nat) (j : Nat) => (p.1 + p.2.1 * j).toNat)
+      [(0, 1, X), (0, 1, Y), (0, 1, Z), (0, 1, C)] i ++ i.drop 4) }, ?_, rfl, ?_⟩
+  · simp [ndSlice, hs, key]
+  · intro x y z c; simp
+
 end generic
 
 /-! ## `transform` with the frame conversion `(255 * voxel[..., 0, 0]).astype(np.uint8)` translated -/
